@@ -1,13 +1,59 @@
 // ===== helpers every handler uses =====
-// rendering of a relayed protocol message (Message::to_string_with_source) — opaque text
-pub uninterp spec fn render(msg: Message, source: Seq<char>) -> Seq<char>;
+// ---- rendering of a relayed protocol message: Message::to_string_with_source, proved against the grammar (C13) ----
+// the characters that force the trailing form of the last parameter
+pub open spec fn has_any_of(s: Seq<char>, set: Seq<char>) -> bool { exists|i: int| 0 <= i < s.len() && set.contains(#[trigger] s[i]) }
+pub uninterp spec fn is_ws_char(c: char) -> bool;
+pub open spec fn has_whitespace(s: Seq<char>) -> bool { exists|i: int| 0 <= i < s.len() && is_ws_char(#[trigger] s[i]) }
+// ASSUMED std facts (rule R27): str::find with a character predicate, str::contains(char::is_whitespace)
+#[verifier::external_body]
+pub fn verif_str_has_any(s: &str, set: &[char]) -> (r: bool) ensures r == has_any_of(s@, set@) { unimplemented!() }
+#[verifier::external_body]
+pub fn verif_str_has_whitespace(s: &str) -> (r: bool) ensures r == has_whitespace(s@) { unimplemented!() }
+// middle parameters: each one preceded by one blank
+pub open spec fn join_mid(params: Seq<&str>, n: int) -> Seq<char>
+    decreases n
+{
+    if n <= 0 { Seq::empty() } else { join_mid(params, n - 1) + seq![' '] + params[n - 1]@ }
+}
+// the last parameter takes the trailing form ` :text` iff it is empty or contains a colon, a blank or a tab
+pub open spec fn needs_trailing(last: Seq<char>) -> bool { last.len() == 0 || has_any_of(last, seq![':', ' ', '\t']) }
+// `:source COMMAND p1 .. pn-1 [:]pn`
+#[verifier::opaque]
+pub open spec fn render(msg: Message, source: Seq<char>) -> Seq<char> {
+    let head = seq![':'] + source + seq![' '] + msg.command@;
+    let n = msg.params@.len() as int;
+    if n == 0 { head } else {
+        let last = msg.params@[n - 1]@;
+        head + join_mid(msg.params@, n - 1) + (if needs_trailing(last) { seq![' ', ':'] } else { seq![' '] }) + last
+    }
+}
 
 impl<'a> Message<'a> {
-    // ASSUMED (status A, DESIGN §11): string building with closures; only the opaque result is used
-    #[verifier::external_body]
-    pub fn to_string_with_source(&self, source: &str) -> (r: String)
-        ensures r@ == render(*self, source@)
-    { unimplemented!() }
+//@fn command.rs Message::to_string_with_source unit=structs props=C13,C01 rules=R28,R27
+//@spec
+        ensures r@ == render(*self, source@), // @prop C13
+//@open
+        broadcast use string_add;
+        proof { reveal(render); reveal_strlit(":"); reveal_strlit(" :"); assert(join_mid(self.params@, 0) =~= Seq::<char>::empty()); }
+        let ghost head = seq![':'] + source@ + seq![' '] + self.command@;
+//@loop ~while i__ < n__
+                invariant
+                    n__ == self.params@.len() - 1, i__ <= n__,
+                    out@ == head + join_mid(self.params@, i__ as int), // @prop C13
+                decreases n__ - i__,
+//@after ~while i__ < n__
+                broadcast use string_add;
+//@endloop ~while i__ < n__
+                proof { reveal_with_fuel(join_mid, 2); assert(out@ =~= head + join_mid(self.params@, i__ as int)); }
+//@close
+        proof {
+            let n = self.params@.len() as int;
+            if n > 0 {
+                assert([':', ' ', '\t']@ =~= seq![':', ' ', '\t']);
+                assert(out@ =~= render(*self, source@)); // @prop C13
+            } else { assert(out@ =~= render(*self, source@)); } // @prop C13
+        }
+//@end
 }
 
 impl MainState {
